@@ -71,6 +71,7 @@ func runC19(p *Prog, r *Report) {
 	r.Rule("D5-decision-table", "ValidateRequirements accepts exactly under the audited combination of its atomic tests")
 	c19DecisionTable(p, r)
 	c19NameLookups(p, r)
+	resolvedSetKeyedByPluginName(p, r, "D1-name")
 
 	regs := []*registry{
 		{kind: "filesystem", pkgRel: "extractor/filesystem/list", namesVar: "extractorNames"},
